@@ -353,6 +353,16 @@ def insertOne (b : Bucket) (historic : List Bucket) (oldest w : Nat) (ok : Bool)
   let resps := (all.map (fun x => answersOf x ok (!ok) (if ok then .inserted else .insertFailed))).flatten
   { historic := batch.historic, resps := staleResps ++ resps, body := (all.map (·.secs)).flatten, nHistoric := batch.taken.length }
 
+/-- goInsert iteration whose `willInsertHistoric` was decided earlier (`will`: were there historic buckets when it took
+a.mu for its snapshot) and whose stale test uses that snapshot `oldest`, while the historic map it pops from is the
+current one -/
+def insertOneW (will : Bool) (b : Bucket) (historic : List Bucket) (oldest w : Nat) (ok : Bool) : InsertOut :=
+  let batch := if !will then { historic := historic, taken := [], stale := [] }
+               else takeHistoric maxHistoricBatch historic oldest w b.joined 0
+  let all := b :: batch.taken
+  let staleResps := (batch.stale.map (fun s => answersOf s true false .stale)).flatten
+  let resps := (all.map (fun x => answersOf x ok (!ok) (if ok then .inserted else .insertFailed))).flatten
+  { historic := batch.historic, resps := staleResps ++ resps, body := (all.map (·.secs)).flatten, nHistoric := batch.taken.length }
 
 /-! ### the composed system -/
 
@@ -371,6 +381,10 @@ inductive Op
   | ballast (k : Nat)                  -- other queued data now takes k units of the historic memory budget
   | diskOk (b : Bool)                  -- disk cache switched off/on at run time (MaxHistoricDiskSize = 0, write errors)
   | bad (r : Nat)                      -- an undecodable sendSourceBucket3 request reaches replica r
+  | tickRace (r now1 now2 rid : Nat) (ok : Bool)
+      -- replica r: the ticker fires at now1; the inserter of the first ready bucket takes its oldestTime snapshot and is then
+      -- delayed (estimator, budgets, sendMu); meanwhile the ticker fires again at now2 and request `rid` (historic, for
+      -- this replica) is handled; only then does the delayed inserter pop historic buckets — with its OLD snapshot
 deriving DecidableEq, Repr
 
 /-- what a step shows to an observer -/
@@ -497,6 +511,53 @@ def stepTick (s : State) (r now : Nat) (ok : Bool) : State × List Ev :=
         resps := s.resps ++ acc.resps, inserted := s.inserted ++ acc.inserted, rejected := s.rejected ++ acc.rejected },
      acc.evs ++ acc.resps.map .answer)
 
+def headTime (l : List Bucket) : Nat := match l.head? with | some b => b.time | none => 0
+
+/-- ready buckets from the first one this replica inserts -/
+def fromFirstOurs (k : Nat) : List Bucket → List Bucket
+  | [] => []
+  | b :: bs => if isOurs b k then b :: bs else fromFirstOurs k bs
+
+/-- one goInsert iteration folded into the accumulator -/
+def tickOne (will : Bool) (oldest w : Nat) (ok : Bool) (b : Bucket) (acc : TickAcc) : TickAcc :=
+  let o := insertOneW will b acc.historic oldest w ok
+  { historic := o.historic, resps := acc.resps ++ o.resps,
+    inserted := if ok then acc.inserted ++ o.body else acc.inserted,
+    rejected := acc.rejected ++ ((o.resps.filter (fun x => x.why == .stale)).map (·.sec)),
+    evs := acc.evs ++ [.ins b.time o.body o.nHistoric ok] }
+
+/-- the historic request that arrives while the inserter is delayed -/
+def raceArrive (s : State) (r : Nat) (g : Agg) (rid : Nat) : State × List Ev :=
+  match findReq s rid with
+  | none => (s, [.none])
+  | some q => if q.replica == r && q.historic then recvHandle (dropReq s rid) q g else (s, [.none])
+
+/-- all inserter iterations of the race: the delayed one (first bucket of this replica among `ready1`, snapshot `snap1`,
+`will` decided before the arrival) and then the others with the current snapshot `snap2` -/
+def raceAcc (k : Nat) (will : Bool) (snap1 snap2 w : Nat) (ok : Bool) (ready1 ready2 hist : List Bucket) : TickAcc :=
+  match fromFirstOurs k ready1 with
+  | [] => tickBuckets k snap2 w ok ready2 { historic := hist, resps := [], inserted := [], rejected := [], evs := [] }
+  | b :: rest => tickBuckets k snap2 w ok (rest ++ ready2)
+      (tickOne will snap1 w ok b { historic := hist, resps := [], inserted := [], rejected := [], evs := [] })
+
+def stepTickRace (s : State) (r now1 now2 rid : Nat) (ok : Bool) : State × List Ev :=
+  match s.aggs[r]? with
+  | none => (s, [.none])
+  | some g =>
+    if !g.up then (s, [.none]) else
+    let adv1 := advance g.recent now1 s.shortWindow
+    let adv2 := advance adv1.2 now2 s.shortWindow
+    let g2 : Agg := { g with recent := adv2.2 }
+    let a := raceArrive (setAgg s r g2) r g2 rid
+    match a.1.aggs[r]? with
+    | none => (s, [.none])
+    | some g3 =>
+      let acc := raceAcc r (!(g.historic.isEmpty || insertHistoricWhen == 0)) (headTime adv1.2) (headTime adv2.2) s.aggWindow ok
+                   adv1.1 adv2.1 g3.historic
+      ({ setAgg a.1 r { g3 with historic := acc.historic } with
+          resps := a.1.resps ++ acc.resps, inserted := a.1.inserted ++ acc.inserted, rejected := a.1.rejected ++ acc.rejected },
+       a.2 ++ acc.evs ++ acc.resps.map .answer)
+
 def stepResp (s : State) (rid : Nat) : State × List Ev :=
   match findResp s rid with
   | none => (s, [.none])
@@ -586,6 +647,7 @@ def step (s : State) : Op → State × List Ev
   | .ballast k => ({ s with ag := { s.ag with memSize := s.ag.memSize - s.ag.ballast + k, ballast := k } }, [])
   | .diskOk b => ({ s with ag := { s.ag with diskOk := b } }, [])
   | .bad r => stepBad s r
+  | .tickRace r now1 now2 rid ok => stepTickRace s r now1 now2 rid ok
 
 def initAgent (disk saveFirst : Bool) (now window : Nat) : Agent :=
   { hist := [], recs := [], lastId := 0, disk := disk, saveFirst := saveFirst, memSize := 0, ballast := 0, diskOk := true, flights := [],
